@@ -63,6 +63,27 @@ Theorem T07b_reported_is_recomputed :
 Proof. exact reported_is_recomputed. Qed.
 Print Assumptions T07b_reported_is_recomputed.
 
+(* where the estimation starts: the restart file (when save_iterations is set and the file is readable) overrides the
+   declared starting values, name by name *)
+Theorem T07b_restart_start : forall si saved s k,
+  let i := st_idm s in
+  (k < List.length (free_names i))%nat -> List.length (free_values i) = List.length (free_names i) ->
+  nth k (free_values (st_idm (load_saved si saved s))) 0 =
+  match (if si then saved else None) with
+  | Some d => match assoc (nth k (free_names i) ""%string) d with Some w => w | None => nth k (free_values i) 0 end
+  | None => nth k (free_values i) 0
+  end.
+Proof. exact restart_start. Qed.
+Print Assumptions T07b_restart_start.
+
+Example T07b_restart_example :
+  free_values (st_idm (load_saved true (Some [("b"%string, 7)]) ex_state)) = [7] /\
+  map (map b_init) (st_formulas (load_saved true (Some [("b"%string, 7)]) ex_state)) = [[7; 3; 7]].
+Proof.
+  split; [reflexivity|]. cbn. unfold change_init_beta. cbn.
+  destruct (Req_EM_T 7 0) as [E|_]; [lra|]. reflexivity.
+Qed.
+
 (* the estimates ARE what the routine selected by the generated tables returned, started at the start values,
    with the declared bounds iff the wrapper hands them on *)
 Theorem T07b_estimates_are_the_routines :
@@ -81,12 +102,8 @@ Theorem T07b_estimates_are_the_routines :
 Proof. exact estimate_unfold. Qed.
 Print Assumptions T07b_estimates_are_the_routines.
 
-(* non-vacuity (for T07b-e): an oracle that answers [1/2]; one free and one fixed parameter *)
-Definition ex_ext : string -> unit -> objective -> vec -> option (list bound) -> opt_result :=
-  fun _ _ _ _ _ => mkOpt [1/2] true.
-Definition ex_state : state :=
-  mkState [[mkBeta "b" 0 None (Some 1) false; mkBeta "fix" 3 None None true; mkBeta "b" 0 None (Some 1) false]]
-          (mkIdm ["b"%string] [0] [(None, Some 1)]).
+(* non-vacuity (for T07b-e): EstimP.ex_ext is an oracle that answers [1/2]; EstimP.ex_state has one free parameter b
+   (two leaves, upper bound 1) and one fixed parameter *)
 Example T07b_example :
   option_map (fun rs => (r_betaValues (fst rs), r_logLike (fst rs), r_initLogLike (fst rs), map (map b_init) (st_formulas (snd rs))))
     (est (fun x => - dot x x) (fun x => map (Rmult (-2)) x) (fun _ => []) (fun _ => []) (fun _ => []) (fun _ => []) 1
